@@ -386,6 +386,23 @@ def run_cases(cases, ctx):
             for sig, r in res:
                 if sig is not None:
                     violations.append((sig, r['src']))
+    # ---- shrink the first correspondence disagreements (the replay file of a broken correspondence then names a
+    # minimal source on which implementation and model differ)
+    if model:
+        done = 0
+        for d in disagreements:
+            srcs = d.get('case', {}).get('srcs') or []
+            if d['case'].get('kind') != 'corpus' or not srcs or done >= 3:
+                continue
+            small = shrink_disagreement(model, bytes.fromhex(srcs[0]))
+            d['case'] = {'kind': 'corpus', 'srcs': [small.hex()]}
+            d['summary'] = {'shrunk_source': small.hex(), 'shrunk_source_repr': repr(small), 'original': d.get('summary')}
+            one = LC.lex_impl([small])
+            a = lib.run_driver(model, ['lex ' + LC.enc_chunks([small])])[0]
+            d['difference'] = 'on %r: %s' % (small, LC.compare_lex(one, a, check_extent_of=small) or
+                                             LC.compare_lex(LC.lex_impl(luagen.split_lines(small)),
+                                                            lib.run_driver(model, ['lex ' + LC.enc_chunks(luagen.split_lines(small))])[0]))
+            done += 1
     # ---- thorough: a shard of the sources is also evaluated by vm_compute inside Coq and compared with the
     # extracted runner (cross-check of extraction + OCaml glue)
     if model and ctx.get('tier') == 'thorough':
@@ -409,6 +426,37 @@ def run_cases(cases, ctx):
                       'observed': [repr(LC.lex_impl([small]))[:400]]})
     return {'evaluations': n_eval, 'nontrivial': len(nontrivial), 'rule': RULE, 'samples': samples,
             'disagreements': disagreements, 'violations': out_v, 'histogram': hist, 'exhaustive': False}
+
+
+def _disagrees(model, src):
+    reqs = ['lex ' + LC.enc_chunks([src]), 'lex ' + LC.enc_chunks(luagen.split_lines(src))]
+    ans = lib.run_driver(model, reqs)
+    return LC.compare_lex(LC.lex_impl([src]), ans[0]) is not None or \
+        LC.compare_lex(LC.lex_impl(luagen.split_lines(src)), ans[1]) is not None
+
+
+def shrink_disagreement(model, src):
+    """greedy delta debugging on bytes, keeping 'implementation and model differ'"""
+    cur = src
+    n = 2
+    rounds = 0
+    while len(cur) > 1 and rounds < 60:
+        rounds += 1
+        size = max(1, len(cur) // n)
+        hit = None
+        for i in range(0, len(cur), size):
+            c = cur[:i] + cur[i + size:]
+            if c and _disagrees(model, c):
+                hit = c
+                break
+        if hit is not None:
+            cur = hit
+            n = max(n - 1, 2)
+        else:
+            if size == 1:
+                break
+            n = min(len(cur), n * 2)
+    return cur
 
 
 def coq_shard(model, srcs):
